@@ -53,6 +53,13 @@ def classify(chk, s, r, an, findings):
                                        "the replacement then holds two jobs and its death (or stop) loses more than one; "
                                        "e.g. corpus/C13/f3_two_lost_with_one_death.scn")
         return "violation", f"job {j} disappeared silently in op #{opi} (model cause: {show_term(cause) if cause else 'none'})"
+    if kind == "AActiveOver":
+        opi = an[1]
+        if any(isinstance(m, tuple) and m[0] == "AActiveOver" and m[1] == opi for m in r["m13"]):
+            return "ok", "the model's own run has the same settled point (a worker in its exit window, or F3 damage)"
+        return "violation", (f"settled point at op #{opi}: {an[2]} worker(s) counted as working but only {an[3]} really running a job: "
+                             "an accepted job waits at a live worker that runs nothing (e.g. the replacement of a dead worker was "
+                             "not given its predecessor's queue)")
     return "violation", f"{show_term(an)}"
 
 
